@@ -8,3 +8,10 @@ check("C19", "exploration", "runtime monitor with arithmetic oracle (instant-sid
       "Exploration, not proof: says nothing about inputs not generated.",
       "Trusted: Go time package and /usr/share/zoneinfo for expected values. LMT-era offsets with seconds compare wall clock + minute offset.",
       "DESIGN.md section 3 C19")
+
+check("C08", "exploration", "runtime differential monitor: idr tree vs standard-decoder mirror (encoding/json value, encoding/xml Token+RawToken DOM)",
+      "Held on every generated document (quick 1.2e4, thorough 6e5): JSON trees convert back to a value deep-equal to encoding/json's decoding "
+      "(incl. empty keys/containers, escapes, numeric spellings) and `copy` reproduces every record end-to-end through Read; XML trees equal a mirror "
+      "DOM built from the standard decoder's tokens in element order, names, prefixes, URIs, attributes and character data.",
+      "Trusted: encoding/json, encoding/xml. No duplicate JSON keys; one prefix per namespace URI.",
+      "DESIGN.md section 3 C08")
